@@ -264,7 +264,9 @@ def solo_case(case, i):
     """thread i's history alone (fresh process): same sequential preamble, one thread"""
     out = []
     for l in case.split("\n"):
-        if l.startswith("threads "):
+        if l.startswith("run"):
+            out.append("run inline")      # by the main thread itself: the reference process has ONE thread
+        elif l.startswith("threads "):
             out.append("threads 1")
         elif l.startswith("prog "):
             toks = l.split(None, 2)
@@ -411,5 +413,27 @@ def indep_dups(rng, repo, docs, lockstep):
     for i in range(3):
         for l in progs[i]:
             L.append("prog %d %s" % (i, l))
+    L += ["run noref", "init 60", "load 60 0 bind=0 synthetic pack:2 numa:1 core:2 pu:2", "cons 60 exportxml", "destroy 60", "cons 63 exportxml", "destroy 63"]
+    return "\n".join(L) + "\n"
+
+
+# ---------------------------------------------------------------------------------------------
+# Native discovery (Linux + x86 backends) by several threads, each on its own topology, each bound to its own PU or
+# not bound at all: the result of a thread's init/load/export history and the binding it is left with must be those of
+# the same history in a single-threaded process (kind indep-faulty: fresh single-threaded reference, ASan)
+
+def indep_native(rng, T, bound):
+    L = ["# kind: indep-faulty", "# native",
+         "init 63", "load 63 0 bind=0 native", "cons 63 exportxml"]     # first uses of the OS backend's statics happen here
+    L.append("threads %d" % T)
+    for i in range(T):
+        if bound:
+            L.append("prog %d bindthread %d" % (i, i))
+        L.append("prog %d showbind" % i)
+        for r in range(rng.randrange(1, 3)):
+            L += ["prog %d init %d" % (i, i), "prog %d load %d 0 bind=0 native" % (i, i), "prog %d showbind" % i,
+                  "prog %d cons %d exportxml" % (i, i), "prog %d cons %d traverse" % (i, i), "prog %d cons %d typeprint" % (i, i),
+                  "prog %d cons %d helpers" % (i, i), "prog %d destroy %d" % (i, i)]
+        L.append("prog %d showbind" % i)
     L += ["run noref", "init 60", "load 60 0 bind=0 synthetic pack:2 numa:1 core:2 pu:2", "cons 60 exportxml", "destroy 60", "cons 63 exportxml", "destroy 63"]
     return "\n".join(L) + "\n"
